@@ -7,7 +7,7 @@ for f in sorted(glob.glob("/verif/seeded/*/meta.json")):
     n = m["notes"]
     what = " ".join(str(n.get("what", "")).split())
     what = what[:150] + ("..." if len(what) > 150 else "")
-    det = ", ".join(m.get("detected_by", [])) or "MISSED"
+    det = ", ".join(m.get("detected_by", [])) or ("OBSOLETE (" + m["obsolete"] + ")" if m.get("obsolete") else "MISSED")
     ran = ", ".join(sorted(m.get("checks_run_quick", {})))
     rows.append((m["id"], str(m.get("property")), what, det, ran))
 import sys, io
@@ -19,7 +19,7 @@ print("| seed | breaks | change (abridged) | detected by (quick tier) | checks r
 print("|---|---|---|---|---|")
 for r in rows:
     print("| " + " | ".join(r) + " |")
-print(f"\n{len(rows)} seeded changes, {sum(1 for r in rows if r[3] != 'MISSED')} detected.")
+print(f"\n{len(rows)} seeded changes, {sum(1 for r in rows if r[3] != 'MISSED' and not r[3].startswith('OBSOLETE'))} detected, {sum(1 for r in rows if r[3].startswith('OBSOLETE'))} obsolete, {sum(1 for r in rows if r[3] == 'MISSED')} missed.")
 
 out = buf.getvalue()
 if "--update" in sys.argv:
